@@ -162,7 +162,7 @@ func (w *tbWorld) freshFails(name string) bool {
 }
 
 // failing templates: firing is additionally checked against "the condition does not FAIL now" under a C14 label
-var tbFailingTemplates = map[string]bool{"b_fail": true, "b_nilptr": true, "b_parenfail": true, "b_kind": true, "b_heal": true}
+var tbFailingTemplates = map[string]bool{"b_kind2": true, "b_fail": true, "b_nilptr": true, "b_parenfail": true, "b_kind": true, "b_heal": true}
 
 func (w *tbWorld) BeginCycle(ctx context.Context, cycle uint64) { w.cycles = cycle }
 
@@ -422,12 +422,17 @@ var tbSets = map[string][]string{
 	"reuse":    {"b_unread", "b_retract", "b_basic", "b_writeonly", "b_complete", "b_spelling"},
 	"reuseq":   {"b_unread", "b_basic", "b_writeonly", "b_complete", "b_spelling"},
 	"failing":  {"b_kind", "b_fail", "b_nilptr", "b_parenfail", "b_heal"},
+	"memo2":    {"b_grid"},
+	"reusej":   {"j_flag"},
+	"ctl2":     {"b_complete2", "b_complete3"},
+	"actfail2": {"b_actfail2", "b_appendfail"},
+	"kind2":    {"b_kind2"},
 	"nilp":     {"b_heal", "b_nilptr"},
 	"removal":  {"b_basic", "b_retract", "two"},
 	"reusef":   {"b_forget", "b_forgetcall", "b_basic"},
 	"actfail":  {"b_actfail", "b_completefail"},
 	"ctl1":     {"b_retract", "b_completetop"},
-	"controlp": {"b_retract", "b_fail", "b_nilptr", "b_actfail", "b_completefail"},
+	"controlp": {"b_retract", "b_fail", "b_nilptr", "b_actfail"},
 	"dbg":      {"b_parenfail"},
 	"fetch":    {"b_basic", "b_short", "b_map", "b_slice", "b_nested", "b_shared", "b_ifacebool", "b_argshare"},
 	"clone":    {"b_paren", "b_argshare", "b_shared", "b_short", "b_retract", "b_map", "b_slice_sel", "b_forgetcall", "two"},
@@ -679,6 +684,57 @@ var tbPost = map[string]func(w *tbWorld, pre factSnap, err error){
 			verif.Assert(w.L("C14:rule-whose-condition-failed-is-tried-again-after-the-repair"), verif.Implies(verif.And(pre.q.V > 0, pre.f.U16 < 1), fs["HL3"] > 0))
 		}
 	},
+	// C10: a firing that retracts itself AND completes still ends the run
+	"b_complete2": func(w *tbWorld, pre factSnap, err error) {
+		fs := firedSet(w)
+		if fs["CR1"] > 0 {
+			verif.Reach("tierB:retract-and-complete-fired")
+			verif.Assert(w.L("C10:Execute-returns-nil-after-Complete"), err == nil)
+			verif.Assert(w.L("C10:nothing-fires-after-Complete"), w.fired[len(w.fired)-1] == "CR1")
+			verif.Assert(w.L("C10:the-data-context-stays-complete"), w.dc.IsComplete())
+		}
+	},
+	// C10: Complete() has no effect on what the remaining actions of the rule compute
+	"b_complete3": func(w *tbWorld, pre factSnap, err error) {
+		fs := firedSet(w)
+		if fs["CM1"] > 0 {
+			verif.Reach("tierB:complete-then-dependent-actions-fired")
+			verif.Assert(w.L("C10:actions-after-Complete-still-run"), verif.And(w.f.I == pre.f.I+40, w.f.J == pre.f.K-(pre.f.I+40)))
+			verif.Assert(w.L("C04:actions-after-Complete-compute-on-the-facts-as-left-by-the-preceding-action"), w.f.J == pre.f.K-(pre.f.I+40))
+		}
+	},
+	// C14: selector assignment on a non-indexable owner, Append of a value of the wrong type: reported like any failing action
+	"b_actfail2": func(w *tbWorld, pre factSnap, err error) {
+		fs := firedSet(w)
+		if fs["AG1"] > 0 {
+			verif.Reach("tierB:failing-action-fired")
+			verif.Assert(w.L("C14:action-failure-is-returned"), err != nil)
+			if err != nil {
+				verif.Assert(w.L("C14:action-error-names-the-rule"), strings.Contains(err.Error(), "AG1"))
+			}
+			verif.Assert(w.L("C14:actions-after-the-failing-one-do-not-run"), w.f.U16 == pre.f.U16)
+			verif.Assert(w.L("C14:no-rule-fires-after-a-failed-action"), w.fired[len(w.fired)-1] == "AG1")
+		}
+	},
+	"b_appendfail": func(w *tbWorld, pre factSnap, err error) {
+		fs := firedSet(w)
+		if fs["AP1"] > 0 {
+			verif.Reach("tierB:failing-action-fired")
+			verif.Assert(w.L("C14:action-failure-is-returned"), err != nil)
+			if err != nil {
+				verif.Assert(w.L("C14:action-error-names-the-rule"), strings.Contains(err.Error(), "AP1"))
+			}
+			verif.Assert(w.L("C14:actions-after-the-failing-one-do-not-run"), w.f.U16 == pre.f.U16)
+			verif.Assert(w.L("C14:no-rule-fires-after-a-failed-action"), w.fired[len(w.fired)-1] == "AP1")
+		}
+	},
+	// C14: a non-boolean operand of && / || is an evaluation failure, not "whatever the other operand says"
+	"b_kind2": func(w *tbWorld, pre factSnap, err error) {
+		fs := firedSet(w)
+		verif.Assert(w.L("C14:condition-failures-are-contained-by-default"), err == nil)
+		verif.Assert(w.L("C14:rule-with-a-failing-condition-does-not-fire"), fs["K6"] == 0 && fs["K7"] == 0)
+		verif.Assert(w.L("C14:healthy-rule-not-disturbed-by-a-failing-sibling"), verif.Implies(pre.f.I8 < 1, fs["K8"] > 0))
+	},
 	"b_nilptr": func(w *tbWorld, pre factSnap, err error) {
 		verif.Assert(w.L("C14:condition-failures-are-contained-by-default"), err == nil)
 		fs := firedSet(w)
@@ -768,6 +824,9 @@ func verifTierBReuse(set string, maxCycle int, fetchFirst int, sameDC int) {
 		err = eng.Execute(w.dc, w.kb)
 		return
 	}
+	if tmpl == "j_flag" {
+		w.json["flag"] = "yes" // first call: the member is a string, so the when scope is not boolean in this call
+	}
 	if fetchFirst != 0 {
 		_, _ = eng.FetchMatchingRules(w.dc, w.kb)
 	}
@@ -793,6 +852,10 @@ func verifTierBReuse(set string, maxCycle int, fetchFirst int, sameDC int) {
 		w.dc.Add("F", w.f)
 		w.dc.Add("N", smallInt("N2"))
 		w.dc.Add("Out", w.out)
+		w.json = newJSONTree("J2") // a new JSON document as well (every leaf symbolic again)
+		if dcx, ok := w.dc.(*ast.DataContext); ok {
+			dcx.ObjectStore["J"] = model.VerifJSONNode(w.json, "J")
+		}
 	} else {
 		w.f.I, w.f.J, w.f.K = smallInt("F.I'"), smallInt("F.J'"), smallInt("F.K'")
 		w.f.B, w.f.C = verif.Bool("F.B'"), verif.Bool("F.C'")
